@@ -151,7 +151,8 @@ def prove_zeroed(c, st, name, upto, arrays=None):
 
 
 # ------------------------------------------------------------------------------------------------ pair body contract
-def pair_visit(c, A, i_name="i", j_name="j", j_when=None, weight=None, ghost=None, target=None, also=None):
+def pair_visit(c, A, i_name="i", j_name="j", j_when=None, weight=None, ghost=None, target=None, also=None, leaves=AXYZ,
+               term=None):
     """visit callback for a body that updates target(i) with the term of source j and (when `j_when`) target(j) with the
     term of source i.  j_when = None: always; otherwise a z3 condition *from the specification*.
     A body path that ends in `continue` must leave every accumulator untouched and contributes nothing."""
@@ -164,12 +165,12 @@ def pair_visit(c, A, i_name="i", j_name="j", j_when=None, weight=None, ghost=Non
         i, j = vis.idx[i_name], vis.idx[j_name]
         ti, tj = (i, j) if target is None else target(vis)
         st = vis.state
-        keys = acc_keys(A, c)
+        keys = [A.key(c.parts, f) for f in leaves]
         g = ghost.shift(vis) if ghost else (0, 0, 0)
         gm = ghost.shift(vis, -1) if ghost else (0, 0, 0)
         w = weight(vis, ti, tj) if weight else None
-        fi = spec_term(c, st, ti, tj, g, w)
-        fj = spec_term(c, st, tj, ti, gm, w)
+        fi = (term or spec_term)(c, st, ti, tj, g, w)
+        fj = (term or spec_term)(c, st, tj, ti, gm, w)
         cases = [((), True)] if j_when is None else [((j_when,), True), ((z3.Not(j_when),), False)]
         for f, key, si in zip(XYZ, keys, fi):
             vis.prove("body.i." + f, vis.delta(key, ti) == si, order=POLY)
@@ -799,6 +800,7 @@ def _(v):
         kj = z3.Int("jk")
         A.iterspace("iterspace.kepler", (kt, kj), z3.And(2 <= kj, kj < c.N, 0 <= kt, kt <= kj), cls="kepler")
     A.nest("pairs", [inner], visit, pre=pre, outer=outer_syms, after=after)
+    A.freeze_preconditions()      # the iteration-space lemmas are stated from inside the outer loop's preservation path
     v.call(FN, c.rp)
     frozen_unchanged(v, c)
 
@@ -825,3 +827,78 @@ def _(v):
     for n, f in enumerate(XYZ):
         v.prove("K11_is_pair." + f, K11[n] == f10[n], order=POLY)
         v.prove("K01_is_pair." + f, K01[n] == f01[n], order=POLY)
+
+
+# ------------------------------------------------------------------------------------------------ jerk (EOS modified kick)
+P.assume("reb_calculate_and_apply_jerk: contract for softening == 0 (the routine does not look at the softening) and "
+         "REB_GRAVITY_BASIC; the pair set must be the one of the accelerations (same Src(k))")
+
+
+@P.task("jerk.basic", fn="reb_calculate_and_apply_jerk", timeout=300)
+def _(v):
+    """v_k += 2 v * sum over s in Src(k) of D f(k<-s)[a_k - a_s], the directional derivative of the pair acceleration
+    f(d) = -G m_s d/|d|^3 along the relative acceleration: -G m_s ((a_k-a_s)/r^3 - 3 (d.(a_k-a_s)) d/r^5)"""
+    JF = "reb_calculate_and_apply_jerk"
+    c = setup(v, "REB_GRAVITY_BASIC")
+    v.assume(c.eps == 0)
+    vv = v.real("v")
+    Aacc = {f: c.parts.array(f) for f in AXYZ}
+    top = accum.loops_under(v.eng, JF, v.eng.enum("REB_GRAVITY_BASIC"))
+    ok = len(top) == 2 and top[0].shape() == PAIR and top[1].shape() == PAIR
+    v.ground("shape.jerk", ok, "expected: active nest, test-particle nest; got %s" % [t.shape() for t in top])
+    if not ok:
+        raise accum.Unsupported("jerk: unexpected loop structure")
+    act, tst = [[t.ordinal, t.children[0].ordinal] for t in top]
+
+    def jerk_term(c_, st, k, s, g, w):
+        d, r2 = sep2(c, k, s)
+        rr = spec_sqrt(v.eng, st, r2)
+        da = [z3.Select(Aacc[f], k) - z3.Select(Aacc[f], s) for f in AXYZ]
+        dot = d[0] * da[0] + d[1] * da[1] + d[2] * da[2]
+        ms = z3.Select(c.X["m"], s)
+        return [2 * vv * (-c.G * ms) * (da[n] / (r2 * rr) - 3 * dot * d[n] / (r2 * r2 * rr)) for n in range(3)]
+    VL = ("vx", "vy", "vz")
+    A = accum.Accum(v, JF, [(c.parts, f) for f in VL])
+    A.nest("active", act, pair_visit(c, A, leaves=VL, term=jerk_term), pre=pair_pre(c))
+    A.nest("test", tst, pair_visit(c, A, j_when=(c.tp == 1), leaves=VL, term=jerk_term), pre=pair_pre(c))
+    v.call(JF, c.rp, vv)
+    v.prove("frame.positions_masses_accelerations_untouched",
+            z3.And(*[c.parts.array(f) == c.X[f] for f in XYZ + ("m",)] + [c.parts.array(f) == Aacc[f] for f in AXYZ]))
+    k, s = z3.Ints("k s")
+    A.iterspace("iterspace", (k, s), is_source(c, k, s))
+
+
+
+@P.task("none", fn=FN)
+def _(v):
+    """REB_GRAVITY_NONE: every acceleration is zero"""
+    c = setup(v, "REB_GRAVITY_NONE")
+    top = accum.loops_under(v.eng, FN, v.eng.enum("REB_GRAVITY_NONE"))
+    v.ground("shape.none", len(top) == 1 and top[0].shape() == (), "one loop")
+    v.loop(FN, top[0].ordinal, invariant=zero_loop_invariant(c, "j", c.N), variant=lambda L: c.N - L.j)
+    v.call(FN, c.rp)
+    k = v.int("k")
+    v.assume(0 <= k, k < c.N)
+    for f in AXYZ:
+        v.prove("zero." + f, c.parts.leaf(k, f) == 0)
+    frozen_unchanged(v, c)
+
+
+P.not_decided += [
+    "REB_GRAVITY_TREE: the recursive tree walk (reb_calculate_acceleration_for_particle_from_cell), 'every leaf reached "
+    "exactly once for zero opening angle' and the multipole error bound for finite opening angle: not attempted (needs a "
+    "tree-shape induction the engine does not have); no local node contract is claimed either",
+    "code under #ifdef OPENMP / MPI (the O(N^2) variants of every routine) is not part of the compiled configuration "
+    "(flags of setup.py) and is not analysed",
+    "REB_GRAVITY_COMPENSATED: the realloc path (N_allocated_gravity_cs < N) and the accuracy benefit of the Kahan "
+    "summation (rounding is not modelled; in real arithmetic the compensation is identically zero)",
+    "floating-point rounding and the order of summation (R-mode); early return when reb_sigint > 1",
+    "MERCURIUS: that L == 1 for pairs outside the encounter set (so that mode 0 alone is the full pair force there) is a "
+    "property of the encounter prediction (integrator), not of gravity.c; parts_add_up is stated per pair",
+    "TRACE: that every flagged pair lies inside the encounter set, and that encounter positions below "
+    "encounter_N_active are exactly the active particles, are integrator invariants (assumed in trace.parts_add_up)",
+    "REB_GRAVITY_JACOBI with softening != 0, N_var != 0 or N_active < N: the routine ignores these settings (observation, "
+    "outside the contract's precondition); reb_calculate_acceleration_var (variational equations) is not part of C02",
+    "the conclusion steps themselves (a_k = sum over the specified set; sum_k m_k a_k = 0 when all particles are active) "
+    "are the accumulation rule's meta-theorem applied to the proved body/iteration-space/momentum obligations",
+]
